@@ -1,4 +1,5 @@
 PROP = dict(
+    cover_pkgs=["pdu"],
     gen=["layouts"],
     proof_files=["Properties/C02.v", "Proofs/PduSpecProofs.v", "Spec/Smpp5.v", "Proofs/PduRoundtripProofs.v"],
     model_files=["Model/Pdu.v", "Model/PduRun.v", "Spec/Smpp5.v", "Proofs/PduSpecProofs.v"],
